@@ -1106,6 +1106,9 @@ func checkC15(h *History, sc *ScanCtx, g *GroupCtx, r *Report) {
 		if e.Sent.ResourceVersion != e.Before.ResourceVersion {
 			r.Covered(P, "update-from-stale-object")
 		}
+		if sc.Rec.MidScan {
+			r.Covered(P, "update-after-mid-scan-change")
+		}
 		switch {
 		case len(eb) == 0 && len(es) == 1:
 			t := es[0]
